@@ -187,6 +187,24 @@ fn check(pf: Prefill, script: &[Op]) -> Result<String, String> {
     if oi != orig {
         return Err(format!("copy read from ints differs: {:?} vs original {:?}", oi, orig));
     }
+    // the receiving snapshot object is reused: reading must replace whatever it held before
+    // (the same snapshot, i.e. every key collides; another one with colliding and foreign keys)
+    for (what, mut target) in [("the same snapshot", from_bytes.clone()), ("another snapshot", build(Prefill::None, &[(0, 0, 1), (2, 1, 2), (1, 2, 0)])?.0)] {
+        let mut t2 = target.clone();
+        target.read_from_ints(&mut w, &ints[..n]).map_err(|e| format!("reading the written ints into an object holding {} fails: {:?}", what, e))?;
+        let o = observe(&target);
+        if o != orig {
+            return Err(format!("copy read from ints into an object holding {} differs: {:?} vs original {:?}", what, o, orig));
+        }
+        t2.read(&mut w, &mut ibuf, &bytes).map_err(|e| format!("reading the written bytes into an object holding {} fails: {:?}", what, e))?;
+        let o = observe(&t2);
+        if o != orig {
+            return Err(format!("copy read from bytes into an object holding {} differs: {:?} vs original {:?}", what, o, orig));
+        }
+        if !w.is_empty() {
+            return Err(format!("warnings reading into a reused object: {:?}", w));
+        }
+    }
     // copies obtained by applying a delta (from the empty snapshot and from the prefix)
     for (name, base_script) in [("empty", &script[..0]), ("prefix", &script[..script.len().saturating_sub(1)])] {
         let base = build(pf, base_script)?.0;
@@ -200,7 +218,8 @@ fn check(pf: Prefill, script: &[Op]) -> Result<String, String> {
             Ok(()) => {}
             Err(_) => continue, // size change of an item: Delta::create's documented precondition (C09 finding)
         }
-        let mut c = Snap::empty();
+        // the target of the delta application is a reused object too
+        let mut c = if name == "prefix" { from_ints.clone() } else { Snap::empty() };
         c.read_with_delta(&mut w, &base_rx, &d).map_err(|e| format!("applying delta from {} fails: {:?}", name, e))?;
         if !w.is_empty() {
             return Err(format!("warnings applying delta from {}: {:?}", name, w));
@@ -405,7 +424,7 @@ fn main() {
         .reduce(LocalClasses::new, |a, b| a.merge(b));
     run.merge_classes(lc);
     run.finish(
-        &format!("all builder scripts of length <= {} over add_item(type in {{ordinal 1, ordinal 2, 3 UUID types}}, id in {{0,1,65535}}, data in {{[],[7],[1,2,3]}}) (an add the builder refuses leaves the reference map unchanged and the builder stays in use): written to bytes and ints, read back, compared through items(), item(type,id) for every key of the alphabet and crc(); copies obtained by delta from the empty snapshot and from the script prefix; received copy recycled (known UUID types keep their number, a new one gets a fresh one); item-count and size limit families; every script of length <= {} on a builder prefilled to 0..48 bytes below the 64 KiB limit or to 1020..1024 items", depth, ldepth),
+        &format!("all builder scripts of length <= {} over add_item(type in {{ordinal 1, ordinal 2, 3 UUID types}}, id in {{0,1,65535}}, data in {{[],[7],[1,2,3]}}) (an add the builder refuses leaves the reference map unchanged and the builder stays in use): written to bytes and ints, read back, compared through items(), item(type,id) for every key of the alphabet and crc(); copies obtained by delta from the empty snapshot and from the script prefix; the wire forms read again into objects that already hold the same / another snapshot; received copy recycled (known UUID types keep their number, a new one gets a fresh one); item-count and size limit families; every script of length <= {} on a builder prefilled to 0..48 bytes below the 64 KiB limit or to 1020..1024 items", depth, ldepth),
         true,
     );
 }
